@@ -471,6 +471,28 @@ def run(db: DB, rep: Report) -> None:
               decided=not per_comp and len({norm(n.targets[0]) for n in overwritten}) == 1 and
               not any(_is_ctor(x, "EBinOp") for n in overwritten for x in ast.walk(n.value)) and
               not any(isinstance(n.value, ast.Name) for n in overwritten))
+    # every fold: a name (or entry) initialised before a loop and re-assigned in
+    # it to an OAdd EBinOp must carry itself as an operand
+    for n in walk_no_nested(fn):
+        if not (isinstance(n, ast.Assign) and len(n.targets) == 1 and _is_ctor(n.value, "EBinOp")
+                and len(n.value.args) == 3 and norm(n.value.args[1]) == "OAdd()"):
+            continue
+        lp = next((p_ for p_ in list(paths.parents(n, fn)) if isinstance(p_, (ast.For, ast.While))), None)
+        if lp is None:
+            continue
+        tgt = norm(n.targets[0])
+        outside = [x for x in walk_no_nested(fn) if isinstance(x, (ast.Assign, ast.AnnAssign)) and
+                   getattr(x, "value", None) is not None and
+                   norm(x.targets[0] if isinstance(x, ast.Assign) else x.target) == tgt and
+                   lp not in list(paths.parents(x, fn))]
+        if not outside and isinstance(n.targets[0], ast.Name):
+            continue        # a per-iteration temporary, not a fold
+        carried = tgt in (norm(n.value.args[0]), norm(n.value.args[2]))
+        rep.check("M5", carried, db.loc(n), bt.short, "rollup:fold@" + tgt,
+                  "fold %s = EBinOp(%s, OAdd(), %s) carries its accumulator" %
+                  (tgt, norm(n.value.args[0]), norm(n.value.args[2])),
+                  "the accumulation '%s' in __build_time does not include the accumulated value %s "
+                  "itself: all but the last term of the sum are dropped" % (norm(n)[:80], tgt))
     # max over exactly the per-component expressions
     maxes = [n for n in walk_no_nested(fn) if _is_ctor(n, "EFunc") and n.args and
              isinstance(n.args[0], ast.Constant)]
